@@ -134,6 +134,8 @@ def replay(pid, path):
         env = dict(os.environ, LD_PRELOAD=SHIM, UVH_CUT_OP=kv['target'], SHIM_FAIL=kv['k'])
         if kv.get('reads') == '1':
             env['SHIM_READS'] = '1'
+        if kv.get('scope'):
+            env['UVH_FAULT_SCOPE'] = kv['scope']
         r = subprocess.run([UVH, 'replay', f, os.path.join(work, 'w')], capture_output=True, text=True, env=env)
         shutil.rmtree(work, ignore_errors=True)
         lines = [l for l in r.stdout.splitlines() if l.startswith('out=')]
@@ -144,6 +146,8 @@ def replay(pid, path):
             bad.append('the run did not complete (%d results)' % len(lines))
         elif kv['kind'] == 'c07':
             bad = ['patch 2 handed out at op %d' % j for j in range(tgt - 1, len(lines)) if parse_line(lines[j])['out'] in ('2', 'path:2')]
+        elif kv['kind'] == 'c05':
+            bad = c05_judge_fault(ops, lines, tgt, kv['art'])
         else:
             bb = set(int(x) for x in kv['bad'].split(',')) if kv['bad'] != '-' else set()
             bad = ['patch %d selected at op %d: %s' % (n, j, why) for (j, n, why) in c04_judge_fail(ops[:tgt], ops[tgt:], lines, kv['kind'], bb)]
@@ -402,7 +406,10 @@ def build_C06(ctx, tier, rnd):
     al.ops['contra'] = ['op update - %s err' % resp(True, None, None)]
     al.ops['contra_rb'] = ['op update - %s err' % resp(True, None, [2])]
     al.ops['navail'] = [op_update(ctx, 2, avail=False)]
-    fails += ['contra', 'contra_rb', 'navail']
+    # an oversized body that is well-formed: the (longer) genuine patch 3 served for patch 2 - it inflates, fails the
+    # content check, and must not spoil the later healthy update of the same number (leftovers in downloads/)
+    al.ops['uover2'] = [op_update(ctx, 2, dl='@' + ctx.p['3']['dl'])]
+    fails += ['contra', 'contra_rb', 'navail', 'uover2']
     depth = 2 if tier == 'quick' else 3
     pres = [PFX[k] for k in ('empty', 'pend1', 'boot1', 'good1', 'good1pend2', 'good1boot2', 'good1bad2', 'good2pend1')]
     if tier == 'thorough':
@@ -2075,7 +2082,7 @@ C07_RULE = ('10 signature variants x 4 configured keys x lifecycle states; same-
             'non-trivial = distinct (state, query/start with a selection)')
 
 
-def fault_runs(header, name, ops, target_index, workdir, reads=True, maxk=60):
+def fault_runs(header, name, ops, target_index, workdir, reads=True, maxk=60, scope=None):
     """Runs the history once per k with the k-th file-system call (mutating calls, and opens for reading when `reads`)
     of its op number `target_index` (1-based among op lines) failing with EIO, execution continuing.
     Returns [(k, out= lines, what failed)]."""
@@ -2090,6 +2097,8 @@ def fault_runs(header, name, ops, target_index, workdir, reads=True, maxk=60):
         env = dict(os.environ, LD_PRELOAD=SHIM, UVH_CUT_OP=str(target_index), SHIM_FAIL=str(k))
         if reads:
             env['SHIM_READS'] = '1'
+        if scope:
+            env['UVH_FAULT_SCOPE'] = scope
         r = subprocess.run([UVH, 'replay', f, wd], capture_output=True, text=True, env=env)
         shutil.rmtree(wd, ignore_errors=True)
         hitl = [x for x in r.stderr.splitlines() if 'SHIM FAIL' in x][-1:]
@@ -2098,6 +2107,106 @@ def fault_runs(header, name, ops, target_index, workdir, reads=True, maxk=60):
         lines = [l for l in r.stdout.splitlines() if l.startswith('out=')]
         res.append((k, lines if (r.returncode == 0 and len(lines) == nops) else None, hitl[0] + ((' | rc=%d %s' % (r.returncode, r.stdout[-200:])) if r.returncode else '')))
     return res
+
+
+def damaged_x_failing_call(a, pid, seed, key, dmgs, work):
+    """patch 2 is installed, its artifact is damaged from outside, and the query / launch start that discovers it has one
+    of its file-system calls (reads included) failing with EIO: patch 2 must not be handed out by that call or afterwards"""
+    ctx = Ctx(seed=seed)
+    try:
+        al = gen.Alphabet(ctx, key=key)
+        header = ctx.header()
+        nf = 0
+        for pk in ('empty', 'good1'):
+            for dm in dmgs:
+                for tgt in (['op nextnum'], ['op nextpath'], ['op start', 'op curnum']):
+                    ops = [al.init] + al.seq(PFX[pk]) + [op_update(ctx, 2, signed=key is not None)] + al.seq([dm]) + tgt + ['op nextnum']
+                    ti = len(ops) - len(tgt)          # 1-based index of the first op of tgt
+                    name = '%sf_%s_%s_%s' % (pid.lower(), pk, dm, tgt[0].split()[1])
+                    for (k, lines, where) in fault_runs(header, name, ops, ti, work):
+                        nf += 1
+                        if lines is None:
+                            a['monitor_fail'].append((name, ti - 1, '%s: with one file-system call failing (%s) the call did not return normally' % (pid, where), ops, header))
+                            continue
+                        for j in range(ti - 1, len(lines)):
+                            out = parse_line(lines[j])['out']
+                            if out in ('2', 'path:2'):
+                                a['monitor_fail'].append((name, j, '%s: patch 2 was damaged after installation (%s) and is handed out (%s) when a file-system call of the query fails: %s' % (pid, dm, out, where), ops,
+                                                          header + ['faultspec mode=fail k=%d reads=1 target=%d kind=c07 bad=-' % (k, ti)]))
+        a['evaluations'] += nf
+        a['dist'] = dict(a.get('dist', {}))
+        a['dist']['damaged_artifact_x_failing_call_runs'] = a['dist'].get('damaged_artifact_x_failing_call_runs', 0) + nf
+    finally:
+        ctx.cleanup()
+
+
+C01_RULE = ('damage op at every position of lifecycle prefixes x continuations, exhaustive small alphabet, guided random walks with stale-file damage; '
+            'a damaged artifact (deleted, truncated; modified at the same size under a key) x every single failing file-system call of the query or launch start that discovers it; '
+            'non-trivial = distinct (abstract disk state, op) pairs where a query/start ran with a selected next boot patch')
+
+
+def c05_judge_fault(ops, lines, ti, ref_art):
+    """one file-system call of the update (op number ti, download and inflate files included) failed: if patch 2 is
+    nevertheless handed out by that update or afterwards, its artifact must be the file the healthy run installs"""
+    bad = []
+    for j in range(ti - 1, len(lines)):
+        st = parse_line(lines[j])
+        if st['out'] in ('2', 'path:2') and ops[j].split()[1] in ('nextnum', 'nextpath') and st['arts'].get(2) != ref_art:
+            bad.append('patch 2 is handed out (%s) at op %d but its artifact is %s, not the file whose hash was advertised (%s)' % (st['out'], j, st['arts'].get(2), ref_art))
+            break
+    return bad
+
+
+C05_RULE = ('byte-level mutants (flip/truncate/extend at zstd and at bidiff level) of a genuine patch, wrong base, empty/junk downloads, hash-string variants, each from 4 lifecycle states followed by a genuine install; '
+            'a genuine update with every single file-system call failing once, the download and inflate files under cache/ included (what is handed out afterwards is the advertised file or nothing); '
+            'non-trivial = distinct (state, update-with-offer)')
+
+
+def run_C05(pid, tier, seed, model_ok=True):
+    a = run_lifecycle(pid, tier, seed, build_C05, [monitors.mon_C05, monitors.mon_healthy], trig_update, C05_RULE, model_ok=model_ok)
+    ctx = Ctx(seed=seed)
+    work = os.path.join(CACHE, 'work-%s-flt-%d' % (pid, os.getpid()))
+    os.makedirs(work, exist_ok=True)
+    try:
+        header = [h for h in ctx.header() if h != 'dls on']
+        nf = 0
+        for key in (None, KEY1):
+            al = gen.Alphabet(ctx, key=key)
+            for pk in ('empty', 'good1', 'good1pend2'):
+                ops = [al.init] + al.seq(PFX[pk]) + [op_update(ctx, 2, signed=key is not None), 'op nextnum', 'op nextpath', 'op kill', al.init, 'op nextnum', 'op nextpath']
+                ti = len(ops) - 6
+                name = 'c05f_%s_%s' % ('k' if key else 'n', pk)
+                _, ref, _ = run_both(header, [(name, ops)], os.path.join(work, 'ref'), impl_only=True)
+                if name not in ref or len(ref[name]) != len(ops):
+                    a['extras'].append('C05 fault stream: no reference run for %s' % name)
+                    continue
+                ref_art = parse_line(ref[name][ti])['arts'].get(2)
+                for (k, lines, where) in fault_runs(header, name, ops, ti, work, reads=True, maxk=80, scope='all'):
+                    nf += 1
+                    if lines is None:
+                        a['monitor_fail'].append((name, ti - 1, 'C05: with one file-system call failing (%s) the update did not return normally' % where, ops, header))
+                        continue
+                    for msg in c05_judge_fault(ops, lines, ti, ref_art):
+                        a['monitor_fail'].append((name, len(ops) - 1, 'C05: with %s failing, %s' % (where, msg), ops,
+                                                  header + ['faultspec mode=fail k=%d reads=1 target=%d kind=c05 scope=all art=%s bad=-' % (k, ti, ref_art)]))
+        a['evaluations'] += nf
+        a['dist'] = dict(a.get('dist', {}), update_x_failing_call_incl_download_files=nf)
+    finally:
+        ctx.cleanup()
+        shutil.rmtree(work, ignore_errors=True)
+    return a
+
+
+def run_C01(pid, tier, seed, model_ok=True):
+    a = run_lifecycle(pid, tier, seed, build_C01, [monitors.mon_C01], trig_handout, C01_RULE, model_ok=model_ok)
+    work = os.path.join(CACHE, 'work-%s-flt-%d' % (pid, os.getpid()))
+    os.makedirs(work, exist_ok=True)
+    try:
+        damaged_x_failing_call(a, pid, seed, None, ('dF2', 'dT2'), work)
+        damaged_x_failing_call(a, pid, seed, KEY1, ('dF2', 'dS2'), work)
+    finally:
+        shutil.rmtree(work, ignore_errors=True)
+    return a
 
 
 def run_C07(pid, tier, seed, model_ok=True):
@@ -2148,31 +2257,7 @@ def run_C07(pid, tier, seed, model_ok=True):
         a['dist'] = dict(a.get('dist', {}), base64_strings=len(toks), base64_accepted_by_the_library=nok)
         # "never handed out" holds under I/O errors too: a signed patch is tampered with (same size / other size) and the
         # query or launch start that discovers it has one of its file-system calls failing
-        ctx = Ctx(seed=seed)
-        try:
-            al = gen.Alphabet(ctx, key=KEY1)
-            header = ctx.header()
-            nf = 0
-            for pk in ('empty', 'good1'):
-                for dm in ('dS2', 'dT2'):
-                    for tgt in (['op nextnum'], ['op nextpath'], ['op start', 'op curnum']):
-                        ops = [al.init] + al.seq(PFX[pk]) + [op_update(ctx, 2, signed=True)] + al.seq([dm]) + tgt + ['op nextnum']
-                        ti = len(ops) - len(tgt)          # 1-based index of the first op of tgt
-                        name = 'c07f_%s_%s_%s' % (pk, dm, tgt[0].split()[1])
-                        for (k, lines, where) in fault_runs(header, name, ops, ti, work):
-                            nf += 1
-                            if lines is None:
-                                a['monitor_fail'].append((name, ti - 1, 'C07: with one file-system call failing (%s) the call did not return normally' % where, ops, header))
-                                continue
-                            for j in range(ti - 1, len(lines)):
-                                out = parse_line(lines[j])['out']
-                                if out in ('2', 'path:2'):
-                                    a['monitor_fail'].append((name, j, 'C07: patch 2 was modified after installation (%s) and is handed out (%s) when a file-system call of the query fails: %s' % (dm, out, where), ops,
-                                                              header + ['faultspec mode=fail k=%d reads=1 target=%d kind=c07 bad=-' % (k, ti)]))
-            a['evaluations'] += nf
-            a['dist']['tampered_artifact_x_failing_call_runs'] = nf
-        finally:
-            ctx.cleanup()
+        damaged_x_failing_call(a, pid, seed, KEY1, ('dS2', 'dT2'), work)
         return a
     finally:
         shutil.rmtree(work, ignore_errors=True)
@@ -2241,9 +2326,8 @@ PROPS = {
     'C18': dict(mons=[monitors.mon_C18], run=run_C18),
     'C19': mk(build_C19, [monitors.mon_C19], trig_life,
               'exhaustive depth-k lifecycle histories with junk directories and release changes + random walks; directory listing after every op; non-trivial as C03'),
-    'C05': mk(build_C05, [monitors.mon_C05, monitors.mon_healthy], trig_update,
-              'byte-level mutants (flip/truncate/extend at zstd and at bidiff level) of a genuine patch, wrong base, empty/junk downloads, hash-string variants, each from 4 lifecycle states followed by a genuine install; non-trivial = distinct (state, update-with-offer)',
-              assumptions=['zstd decoder output (incl. partial output on failure) is an oracle computed by the zstd library outside the updater']),
+    'C05': dict(mons=[monitors.mon_C05, monitors.mon_healthy], run=run_C05,
+                assumptions=['zstd decoder output (incl. partial output on failure) is an oracle computed by the zstd library outside the updater']),
     'C06': dict(mons=[], run=run_C06,
                 assumptions=['TCP/HTTP behaviour below reqwest (kernel, hyper) is exercised against a scripted local server, not modelled; the model sees a failed request as "no response"']),
     'C07': dict(mons=[lambda c, o, s: monitors.mon_C01(c, o, s)], run=run_C07,
@@ -2253,10 +2337,8 @@ PROPS = {
     'C14': dict(mons=[monitors.mon_C14], run=run_C14),
     'C20': mk(build_C20, [monitors.mon_C20], trig_request,
               'random YAML-channel/app/release strings (unicode included) x random per-call channels x interleaved calls, restarts and intruding second inits; non-trivial = distinct (state, call that sent a request)'),
-    'C01': mk(build_C01, [monitors.mon_C01], trig_handout,
-              'damage op at every position of lifecycle prefixes x continuations, exhaustive small alphabet, guided random walks with stale-file damage; '
-              'non-trivial = distinct (abstract disk state, op) pairs where a query/start ran with a selected next boot patch',
-              assumptions=['sha256/rsa/base64 are oracles (driver: real SHA-256, signature table from openssl)']),
+    'C01': dict(mons=[monitors.mon_C01], run=run_C01,
+                assumptions=['sha256/rsa are oracles (driver: real SHA-256, signature table from openssl); base64 is modelled (Signing.v)']),
     'C02': mk(build_C02, [monitors.mon_C02], trig_banned_offer,
               'failure/kill at every position x all continuations, exhaustive {s,fail,R,u1,u2,q,ok}, unconformant random walks; '
               'non-trivial = distinct (state, op) where a banned number is offered or a booting patch is failed/crash-detected'),
